@@ -323,27 +323,37 @@ def rule_low_rank_condition(repo, rep):
            'rows): components_ never has more rows than features')
   _f0, f = _cbw_view(repo)
   shp = [n for n in ast.walk(f.node) if isinstance(n, ast.Assign) and
-         ast.unparse(n.value) == 'basis.shape' and
-         isinstance(n.targets[0], ast.Tuple) and len(n.targets[0].elts) == 2]
-  rets = [r for r in ast.walk(f.node) if isinstance(r, ast.Return)]
-  low = [r for r in rets if 'components_from_metric' not in
-         ast.unparse(r.value)]
-  if not shp or len(low) != 1:
+         isinstance(n.value, ast.Attribute) and n.value.attr == 'shape' and
+         isinstance(n.targets[0], ast.Tuple) and len(n.targets[0].elts) == 2
+         and all(isinstance(e, ast.Name) for e in n.targets[0].elts)]
+  paths = astutil.return_paths(f.node.body, {})
+  low = [(r, c) for (r, c) in paths if r is not None and
+         'components_from_metric' not in ast.unparse(r.value)]
+  if len(shp) != 1 or len(low) != 1:
     rep.unknown(R, 'scml._BaseSCML._components_from_basis_weights', site(f),
                 'shape unpacking / low-rank return not recognised')
     return
   nb, nf = [e.id for e in shp[0].targets[0].elts]
-  conds = astutil.path_condition(f.node, low[0])
-  want = astutil.norm_atom(ast.parse('%s < %s' % (nb, nf), mode='eval').body)
-  if conds == [want]:
+  want = guards.cmp_of(ast.parse('%s < %s' % (nb, nf), mode='eval').body)
+  got = []
+  for (t, pol) in low[0][1]:
+    try:
+      got.append(guards.cmp_of(ast.parse(t, mode='eval').body, None, pol))
+    except SyntaxError:
+      got.append(None)
+  if got == [want]:
     rep.derived(R, 'scml._BaseSCML._components_from_basis_weights',
-                site(f, low[0]))
+                site(f, low[0][0]))
+  elif None in got or not got:
+    rep.unknown(R, 'scml._BaseSCML._components_from_basis_weights',
+                site(f, low[0][0]), 'condition %s of the low-rank return not '
+                'a single comparison' % low[0][1])
   else:
     rep.refuted(R, 'scml._BaseSCML._components_from_basis_weights',
-                site(f, low[0]), 'the one-row-per-basis transformation is '
+                site(f, low[0][0]), 'the one-row-per-basis transformation is '
                 'returned under %s, documented %s < %s: with that many '
                 'active bases components_ has more rows than features'
-                % (conds, nb, nf))
+                % (low[0][1], nb, nf))
 
 
 def rule_lda_normalised(repo, rep):
